@@ -50,6 +50,13 @@ def printCmd (args : List String) : String :=
       | some t => showCps t
       | none => "PANIC"
     | _, _ => "bad-op"
+  | [o, v, k] =>
+    match parsePrintOpts? o, parseValue? v, k.toNat? with
+    | some o, some v, some k =>
+      match printWith o k v with
+      | some t => showCps t
+      | none => "PANIC"
+    | _, _, _ => "bad-op"
   | _ => "bad-op"
 
 end Driver
